@@ -33,8 +33,9 @@
 (*  P_C18_RestartCount               spawns - 1 <= restart_count <= triggers, at rest       *)
 (*  P_C18_NothingAfterStop           no child alive when stop() returns, none spawned later *)
 (*  P_C18_HelpersGone                at rest after stop() returned no helper thread is left *)
-(*  P_C18_StopReturns                no deadlock                                            *)
+(*  P_C18_StopReturns                no deadlock: stop() returns                            *)
 (*  P_C18_NoException                nothing escapes from on_any_event/stop/a helper thread *)
+(*  P_C18_ComesToRest                the program comes to rest (no run-away restart loop)   *)
 (*  P_C18_NoOverlapWhenWaitOrDrop    shell command: never two commands alive when asked to  *)
 (*                                   wait or to drop                                        *)
 EXTENDS TraceUtil
@@ -187,14 +188,21 @@ Final == /\ At("final") /\ Step
          /\ UNCHANGED <<now, arrived, ndeliv, pend, stopCalled, stopRet, stopPre, ready, alive, nspawn, started, trigAvail,
                         trigTotal, cbMark>>
 DeadlockLine == /\ At("deadlock") /\ Step
-                /\ viol' = viol \cup If(HasDeb /\ stopCalled /\ ~(AllowD8 /\ stopPre), "P_C18_ThreadExits")
-                                \cup If(~(HasDeb /\ stopCalled), "P_C18_StopReturns")
+                /\ viol' = viol \cup If(IsDeb /\ stopCalled /\ ~(AllowD8 /\ stopPre), "P_C18_ThreadExits")
+                                \cup If(~(IsDeb /\ stopCalled) /\ ~(IsAr /\ H.debounced /\ stopCalled /\ AllowD8 /\ stopPre),
+                                        "P_C18_StopReturns")
                 /\ UNCHANGED <<now, arrived, ndeliv, pend, stopCalled, stopRet, stopPre, ready, alive, nspawn, started, trigAvail,
                                trigTotal, cbMark>>
 
+\* the scheduler cut the execution: it did not come to rest (a run-away restart loop)
+StepLimitLine == /\ At("steplimit") /\ Step
+                 /\ viol' = viol \cup {"P_C18_ComesToRest"}
+                 /\ UNCHANGED <<now, arrived, ndeliv, pend, stopCalled, stopRet, stopPre, ready, alive, nspawn, started, trigAvail,
+                                trigTotal, cbMark>>
+
 Next == TLCGet(BIG + tid) = 0 /\
         (CallEv \/ RetEv \/ Batch \/ BatchRet \/ ProcLine \/ CallOther \/ RetOther \/ ExcLine \/ Uncaught \/ Tick \/ Ready
-         \/ DbStop \/ Quiescent \/ Final \/ DeadlockLine \/ \E t \in AllThreads : LinEv(t))
+         \/ DbStop \/ Quiescent \/ Final \/ DeadlockLine \/ StepLimitLine \/ \E t \in AllThreads : LinEv(t))
 Spec == Init /\ [][Next]_vars
 
 Report == Progress(tid, l, Len(Tr), viol)
